@@ -117,6 +117,24 @@ int main(void)
 			if (o)
 				json_object_put(o);
 		}
+		else if (NW == 4 && !strcmp(W[0], "cpd") && strlen(W[3]) == 16)
+		{
+			const char *s = W[2];
+			struct json_object *o = jt_build(&s), *c = NULL;
+			uint64_t bits = 0;
+			double d;
+			for (int i = 0; i < 16; i++)
+				bits = bits * 16 + (uint64_t)hexv(W[3][i]);
+			memcpy(&d, &bits, 8);
+			if (*s || !o || json_object_deep_copy(o, &c, NULL) != 0 || !c || !json_object_set_double(c, d))
+				puts("bad-cpd");
+			else
+				op_ser(c, atoi(W[1]));
+			if (c)
+				json_object_put(c);
+			if (o)
+				json_object_put(o);
+		}
 		else if (NW == 4 && !strcmp(W[0], "sset"))
 		{
 			size_t n1, n2;
